@@ -18,7 +18,7 @@ import (
 
 func init() {
 	Registry["C01"] = &Oracle{Run: runC01, Lines: linesMsg(checkRoundTrip, nil)}
-	Registry["C02"] = &Oracle{Run: runC02, Lines: linesMsg(nil, checkRepack)}
+	Registry["C02"] = &Oracle{Run: runC02, Lines: linesC02}
 	Registry["C08"] = &Oracle{Run: runC08, Lines: linesC08}
 	Registry["C19"] = &Oracle{Run: runC19, Lines: linesMsg(checkAttribution, nil)}
 }
@@ -455,7 +455,7 @@ func runC02(t gen.Tier, r *gen.Rng, rep *Reporter) {
 		}
 		checkRepack(rep, specT, packed)
 		for j, mut := range g.Mutate(packed) {
-			if j > t.N(40, 120) {
+			if j > t.N(70, 160) {
 				break
 			}
 			checkRepack(rep, specT, mut)
@@ -816,5 +816,45 @@ func linesC08(lines []string, rep *Reporter) {
 				}
 			}
 		}
+	}
+}
+
+// linesC02 re-examines correspondence differences. Besides message / field lines it turns a
+// differing length-prefix decode (`P <pref> dec <maxLen> <hex>`) into a message whose only
+// data element uses that prefixer with that maximum and carries exactly the announced number
+// of bytes, and evaluates the re-pack statement there (directed search, DESIGN §3.4).
+func linesC02(lines []string, rep *Reporter) {
+	linesMsg(nil, checkRepack)(lines, rep)
+	for _, l := range lines {
+		t := strings.Split(l, " ")
+		if len(t) != 5 || t[0] != "P" || t[2] != "dec" {
+			continue
+		}
+		pr := impl.Prefixer(t[1])
+		maxLen, err := strconv.Atoi(t[3])
+		data, ok := impl.UnHex(t[4])
+		if pr == nil || err != nil || !ok || t[1] == "none" || strings.HasSuffix(t[1], ".F") || maxLen > 4000 {
+			continue
+		}
+		var n, read int
+		func() {
+			defer func() { recover() }()
+			var derr error
+			n, read, derr = pr.DecodeLength(maxLen, data)
+			if derr != nil {
+				n = -1
+			}
+		}()
+		if n < 0 || n > 5000 || read > len(data) {
+			continue
+		}
+		specT, ok := impl.ParseTree(fmt.Sprintf("m(p(s,4,ascii,ascii.F,nil,d),bm(8,binary,binary.F,1),f(2,p(b,%d,binary,%s,nil,d)))", maxLen, t[1]))
+		if !ok {
+			continue
+		}
+		wire := append([]byte("0100"), 0x40, 0, 0, 0, 0, 0, 0, 0)
+		wire = append(wire, data[:read]...)
+		wire = append(wire, bytes.Repeat([]byte{'A'}, n)...)
+		checkRepack(rep, specT, wire)
 	}
 }
